@@ -1,2 +1,3 @@
 pub mod program;
 pub mod loops;
+pub mod churn;
